@@ -537,8 +537,8 @@ MANIFEST_TEXT = {
     ),
     "C12": dict(
         design_ref="DESIGN.md §4-C12",
-        level_text="PARTIAL. Sequentialised two-party race decided by the solver over the real poll_obtain_write_permission, acknowledge and disallow_write with the real futures AtomicWaker: the other party's whole operation is injected before the writer's poll, at each place where the poll logs (scheduling points provided by the tracing model), or after it; whenever the poll returns Pending although credit arrived or the stream was closed, a wake-up must have been delivered, and the final credit equals grants minus permissions. This reproduces the pinned tree's lost wake-up (acknowledge between the credit load and the waker registration). Two further instances observe what is visible at the very moment the blocked writer's waker fires: the returned credit / the closed flag must already be there (a writer re-polled at that moment on another thread would otherwise sleep for ever). Interleavings at the granularity of single atomic operations and weak-memory behaviours are outside what Kani can express.",
-        level_note='Sequential consistency, whole-operation injection at log sites only, one writer. A witness guards against the scheduling points disappearing. Trusted: Kani/CBMC; sequential models of tokio channels/io/time, hashbrown, parking_lot (a lock taken while held = panic), bytes, tracing; enum layout pins in the scratch copy; the hand-written composition argument in DESIGN.md. Single-threaded execution: no real interleavings except the sequentialised race of C12.',
+        level_text="PARTIAL. Sequentialised two-party race decided by the solver over the real poll_obtain_write_permission, acknowledge and disallow_write with the real futures AtomicWaker: the other party's whole operation is injected before the writer's poll, at each place where the poll logs (scheduling points provided by the tracing model), or after it; whenever the poll returns Pending although credit arrived or the stream was closed, a wake-up must have been delivered, and the final credit equals grants minus permissions. This reproduces the pinned tree's lost wake-up (acknowledge between the credit load and the waker registration). Two further instances observe what is visible at the very moment the blocked writer's waker fires: the returned credit / the closed flag must already be there (a writer re-polled at that moment on another thread would otherwise sleep for ever). Since the atomics of the scratch copy are instrumented wrappers (a scheduling point before every atomic operation), the injection also happens immediately before the k-th ATOMIC operation of the writer's poll, and - the other way round - the writer's whole poll is injected immediately before the k-th atomic operation of acknowledge / disallow_write (initial credit 0..2): a load/store pair standing in for a read-modify-write loses the writer's decrement and is reported (credit after the race is not grants minus frames sent). One of the two operations is always executed as a whole; interleavings in which both are split, and weak-memory behaviours, are outside what Kani can express.",
+        level_note='Sequential consistency; whole-operation injection at log sites and at atomic operations; compare_exchange_weak without spurious failures; one writer. A witness guards against the scheduling points disappearing. Trusted: Kani/CBMC; sequential models of tokio channels/io/time, hashbrown, parking_lot (a lock taken while held = panic), bytes, tracing; enum layout pins in the scratch copy; the hand-written composition argument in DESIGN.md. Single-threaded execution: no real interleavings except the sequentialised race of C12.',
     ),
     "C15": dict(
         design_ref="DESIGN.md §4-C15",
